@@ -83,7 +83,7 @@ class KernelProp(Prop):
 
     def _shrink(self, case) -> Iterator[dict[str, Any]]:
         ops = case["ops"]
-        if any(o.get("via") == "shortcut" for o in ops):
+        if any(o.get("via") in ("shortcut", "ctxtd") for o in ops):
             yield {**case, "ops": [{**o, "via": "method"} if "via" in o else o for o in ops]}
         # drop single ops (from the end first: later ops depend on earlier ones)
         for i in reversed(range(len(ops))):
@@ -94,6 +94,8 @@ class KernelProp(Prop):
                 cb = op.get(key)
                 if isinstance(cb, dict):
                     for s in _shrink_cb(cb):
+                        if op.get("via") == "ctxtd" and not s["async"]:
+                            continue        # the tail of a @context_teardown generator always suspends
                         o2 = copy.deepcopy(op)
                         o2[key] = s
                         yield {**case, "ops": ops[:i] + [o2] + ops[i + 1:]}
